@@ -135,10 +135,15 @@ class TrioRun:
         self.seq += 1
         p = Parked(kind, pipe, info, slot, self.world.current_actor, self.seq)
         self.parked.append(p)
+        if not hasattr(self, "in_gate"):
+            self.in_gate = {}
+        actor = self.world.current_actor
+        self.in_gate[actor] = kind  # until the caller has actually resumed from this operation (the scheduler may have completed it already)
         try:
             await slot.event.wait()
             return slot.value
         finally:
+            self.in_gate.pop(actor, None)
             if p in self.parked:
                 self.parked.remove(p)
 
@@ -200,12 +205,14 @@ class TrioRun:
                 caller.cancel_fired_at = caller.susp
                 caller.cancel_site = suspension_site(caller.program_coro)
                 caller.in_shield_at_cancel = self.shield_depth.get(caller.id, 0) > 0
+                caller.parked_kind_at_cancel = getattr(self, "in_gate", {}).get(caller.id)
                 caller.scope.cancel()
 
         def on_throw(e):
             if isinstance(e, trio.Cancelled) and caller.delivery_site is None and caller.cancel_fired_at is not None and not self.winding_down:
                 caller.delivery_site = suspension_site(caller.program_coro)
                 caller.in_shield_at_delivery = self.shield_depth.get(caller.id, 0) > 0
+                caller.parked_kind_at_delivery = getattr(self, "in_gate", {}).get(caller.id)
 
         caller.program_coro = self._program(caller)
         try:
@@ -501,6 +508,7 @@ class TrioRun:
         caller.cancel_fired_at = caller.susp
         caller.cancel_site = suspension_site(caller.program_coro)
         caller.in_shield_at_cancel = self.shield_depth.get(caller.id, 0) > 0
+        caller.parked_kind_at_cancel = getattr(self, "in_gate", {}).get(caller.id)
         caller.cancelled_on_assign = True
         caller.scope.cancel()
 
